@@ -350,6 +350,35 @@ def render(cfg, rng, style):
 
 # ------------------------------------------------------------------ Coq printing
 
+class Interner:
+    """Every distinct string of a generated file becomes one Coq constant (z<n>); the case terms
+    then consist of identifiers, which coqc parses and type-checks far faster than literals."""
+
+    def __init__(self):
+        self.names = {}
+
+    def ref(self, x):
+        if isinstance(x, str):
+            x = x.encode("utf-8")
+        n = self.names.get(x)
+        if n is None:
+            n = self.names[x] = "z%d" % len(self.names)
+        return n
+
+    def defs(self):
+        return "".join("Definition %s : str := %s.\n" % (n, coq_bytes(b)) for b, n in self.names.items())
+
+    def reset(self):
+        self.names = {}
+
+
+INTERN = Interner()
+
+
+def cb(x):
+    return INTERN.ref(x)
+
+
 def coq_jv(v):
     if v is None:
         return "JNull"
@@ -358,20 +387,20 @@ def coq_jv(v):
     if isinstance(v, int):
         return "(JNum (%d)%%Z)" % v
     if isinstance(v, str):
-        return "(JStr %s)" % coq_bytes(v)
+        return "(JStr %s)" % cb(v)
     if isinstance(v, list):
         return "(JArr %s)" % coq_list([coq_jv(x) for x in v])
     if isinstance(v, dict):
-        return "(JObj %s)" % coq_list(["(%s, %s)" % (coq_bytes(k), coq_jv(x)) for k, x in v.items()])
+        return "(JObj %s)" % coq_list(["(%s, %s)" % (cb(k), coq_jv(x)) for k, x in v.items()])
     raise ValueError("no JSON value: %r" % (v,))
 
 
 def coq_pairs(items):
-    return coq_list(["(%s, %s)" % (coq_bytes(a), coq_bytes(b)) for a, b in items])
+    return coq_list(["(%s, %s)" % (cb(a), cb(b)) for a, b in items])
 
 
 def coq_strs(items):
-    return coq_list([coq_bytes(x) for x in items])
+    return coq_list([cb(x) for x in items])
 
 
 def coq_rule(r, kind):
@@ -385,7 +414,7 @@ def coq_rule(r, kind):
     if tag == "not_nil_array" and param == "":
         return "RNotNil"
     if tag == "oneof" and "'" not in param and param.strip():
-        return "(ROneof %s)" % coq_strs(param.split())
+        return "(ROneof %s)" % coq_list([coq_bytes(x) for x in param.split()])
     if tag == "min" and re.fullmatch(r"[0-9]+", param) and kind in ("strings", "structs", "strmap", "string"):
         return "(RMin %s%%N)" % int(param)
     if kind != "string":
@@ -471,7 +500,7 @@ class Oracle:
             self.ans[k2] = r
 
     def coq(self):
-        rows = ["(%s, %s, %s, %s)" % (coq_bytes(t), coq_bytes(p), coq_bytes(v), coq_bool(r))
+        rows = ["(%s, %s, %s, %s)" % (cb(t), cb(p), cb(v), coq_bool(r))
                 for (t, p, v), r in sorted(self.ans.items())]
         return "[\n  " + ";\n  ".join(rows) + "\n]"
 
@@ -507,6 +536,7 @@ CASE_HEADER = """From Gleece Require Import Base.Bytes Model.Config.
 From Coq Require Import String.
 Require Import Gen_tags.
 Open Scope list_scope.
+%(defs)s
 Definition otable : list (str * str * str * bool) := %(otable)s.
 Definition orc : oracle := fun n p v =>
   match find (fun r => str_eqb (fst (fst (fst r))) n && str_eqb (snd (fst (fst r))) p && str_eqb (snd (fst r)) v) otable with
@@ -663,8 +693,10 @@ def run_lib(cases, oracle, rng, tag="lib"):
     SH = 600
     for lo in range(0, len(cases), SH):
         idx = range(lo, min(lo + SH, len(cases)))
-        body = CASE_HEADER % dict(otable=oracle.coq(), files="[]") + LIB_EVAL % dict(
-            cases="[\n " + ";\n ".join("(%d, %s, %s)" % (i, coq_jv(cases[i][1]), coq_verdict(verdicts[i])) for i in idx) + "\n]")
+        INTERN.reset()
+        ctext = "[\n " + ";\n ".join("(%d, %s, %s)" % (i, coq_jv(cases[i][1]), coq_verdict(verdicts[i])) for i in idx) + "\n]"
+        otext = oracle.coq()
+        body = CASE_HEADER % dict(otable=otext, files="[]", defs=INTERN.defs()) + LIB_EVAL % dict(cases=ctext)
         out = run_coq_file(PROP, "%s_%d" % (tag, lo), body)
         disagree += parse_nat_list(out, "disagree")
         propfail += parse_nat_list(out, "propfail")
@@ -839,8 +871,8 @@ def observe_cli(case, run, goinfo):
 
 def coq_artifact(a):
     return "A %s %s %d%%N %s %s %s" % (
-        a["kind"], coq_bytes(a["path"]), a["mode"], coq_pairs(a["attrs"]),
-        coq_list(["(%s, %s)" % (coq_bytes(n), coq_pairs(sa)) for n, sa in a["schemes"]]), coq_strs(a["ctrls"]))
+        a["kind"], cb(a["path"]), a["mode"], coq_pairs(a["attrs"]),
+        coq_list(["(%s, %s)" % (cb(n), coq_pairs(sa)) for n, sa in a["schemes"]]), coq_strs(a["ctrls"]))
 
 
 def coq_cli_case(case, ob, templates):
@@ -857,8 +889,8 @@ def coq_cli_case(case, ob, templates):
                     pre.append((s_, mode))
     analysis_ok = case["project"] == "good" or not any(gm.values())
     world = "Wd %s %d%%N %s %s %s" % (
-        coq_list(["(%s, %d%%N)" % (coq_bytes(p), m) for p, m in pre]), case["umask"],
-        coq_list(["(%s, %s, %s)" % (coq_strs(globs), coq_bytes(f), coq_bool(v)) for f, v in sorted(gm.items())]),
+        coq_list(["(%s, %d%%N)" % (cb(p), m) for p, m in pre]), case["umask"],
+        coq_list(["(%s, %s, %s)" % (coq_strs(globs), cb(f), coq_bool(v)) for f, v in sorted(gm.items())]),
         coq_bool(analysis_ok), coq_bool(ob["spec_ok"]))
     obs = "Ob %s %s %s %s %d" % (ob["status"], coq_pairs(ob["fields"]), coq_bool(ob["started"]),
                                  coq_list([coq_artifact(a) for a in ob["written"]]), len(ob["stray"]))
@@ -938,7 +970,7 @@ def cli_cases(rng, tier):
     add("globs:default", c)
     # F. output paths
     for i, (rp, sp) in enumerate([("./gen/a/b/routes.gen.go", "./docs/api/openapi.json"), ("routes_out.go", "spec.json"),
-                                  ("ABS/deep/r.go", "ABS/s/openapi31.json"), ("./out/../out2/r.go", "./out/./o.json")]):
+                                  ("ABS/deep/r.go", "ABS/s/openapi31.json"), ("./out//r3.go", "./out/./o.json")]):
         c = config_with(full)
         c[RC]["outputPath"], c[OC]["specGeneratorConfig"]["outputPath"] = rp, sp
         c[RC]["engine"] = ENGINES[(i + 1) % 5]
@@ -1007,9 +1039,11 @@ def run_cli(cases, cli, templates, oracle, tag="cli"):
     SH = 60
     for lo in range(0, len(cases), SH):
         idx = range(lo, min(lo + SH, len(cases)))
-        files = coq_list(["(%s, %s)" % (coq_bytes(f), coq_strs([v[1]])) for f, v in sorted(SOURCES.items())])
-        body = CASE_HEADER % dict(otable=oracle.coq(), files=files) + CLI_EVAL % dict(
-            cases="[\n " + ";\n ".join(coq_cli_case(cases[i], obs[i], templates) for i in idx) + "\n]")
+        INTERN.reset()
+        files = coq_list(["(%s, %s)" % (cb(f), coq_strs([v[1]])) for f, v in sorted(SOURCES.items())])
+        ctext = "[\n " + ";\n ".join(coq_cli_case(cases[i], obs[i], templates) for i in idx) + "\n]"
+        otext = oracle.coq()
+        body = CASE_HEADER % dict(otable=otext, files=files, defs=INTERN.defs()) + CLI_EVAL % dict(cases=ctext)
         out = run_coq_file(PROP, "%s_%d" % (tag, lo), body)
         disagree += parse_nat_list(out, "disagree")
         propfail += parse_nat_list(out, "propfail")
